@@ -76,6 +76,7 @@ class Obl:
         self.skolems = []
         self.ninst = 0
         self.block = None
+        self.cut = None
         self.inputs = None      # replay info
 
 
@@ -117,6 +118,9 @@ class VC:
         self.quant_axioms = []
         self.tid_facts = set()
         self.def_memo = {}
+        self.entry_nassume = 0
+        self.cut = None
+        self.quant_defs = {}
         self.str_facts = set()
         self.assume_block = {}
         self.cur_block = None
@@ -152,6 +156,14 @@ class VC:
         self.lines.append('(define-fun %s () %s %s)' % (s, self.ssort(sort), term))
         self.def_memo[key] = s
         return s
+
+    def define_quant(self, term):
+        if term in self.quant_defs:
+            return self.quant_defs[term]
+        n = sym(self.fresh('qa$def'))
+        self.quant_defs[term] = n
+        self.lines.append(('quantdef', n, term))
+        return n
 
     def ssort(self, sort):
         if sort.startswith('Seq:'):
@@ -192,6 +204,12 @@ class VC:
         b = self.assume_block.get(idx)
         if b is None or obl.block is None or self.reach_sets is None:
             return True
+        if obl.cut is not None:
+            # a cut point (assert-then-assume of a summarising fact) hides the guarded assumptions made between
+            # the function entry and the cut from the obligations that come after it
+            cut_idx, cut_block = obl.cut
+            if self.entry_nassume <= idx < cut_idx and obl.block in self.reach_sets.get(cut_block, ()):
+                return False
         return obl.block in self.reach_sets.get(b, ())
 
     def assume_forall(self, guard, fn, nvars=1):
@@ -219,10 +237,15 @@ class VC:
                 cands[v.sort].append('(+ %s 1)' % v.term)
                 cands[v.sort].append('(- %s 2)' % v.term)
                 cands[v.sort].append('(+ %s 2)' % v.term)
-        cands.setdefault('Int', []).append('0')
-        for (sort, term) in self.inst_terms[:obl.ninst]:
+        cands.setdefault('Int', []).extend(['0', '1', '2'])
+        # the most recent index terms before the obligation (nearest first)
+        avail = self.inst_terms[:obl.ninst]
+        # skip terms that are not indices (e.g. pointers used to index a field map)
+        avail = [x for x in avail if not x[1].startswith('(select')]
+        recent = avail[:10] + [x for x in reversed(avail[10:])]
+        for (sort, term) in recent:
             l = cands.setdefault(sort, [])
-            if term not in l and len(l) < 40:
+            if term not in l and len(l) < 36:
                 l.append(term)
         for ai, a in enumerate(self.assumes[:obl.nassume]):
             if not isinstance(a, tuple):
@@ -271,6 +294,7 @@ class VC:
         o = Obl(nm, kind, guard, goal, len(self.assumes), list(tags), line, self.fname, clause)
         o.ninst = len(self.inst_terms)
         o.block = self.cur_block
+        o.cut = self.cut
         self.obls.append(o)
         return o
 
@@ -526,7 +550,7 @@ class VC:
         self.unfold_cache[fuel] = (len(self.rec_insts), axioms)
         return axioms
 
-    def query(self, obl, fuel=1):
+    def query(self, obl, fuel=1, noq=False):
         from .smt import PRELUDE
         qinst = self.instantiate_qas(obl)
         rec_axioms = self.unfold_recs(fuel)
@@ -535,7 +559,11 @@ class VC:
             out.append(SEQ_DECL % {'s': es, 'smt': smt_sort(es)})
         for k in sorted(self.ufuns):
             out.append(self.ufuns[k])
-        out.extend(self.lines)
+        for l in self.lines:
+            if isinstance(l, tuple):
+                out.append('(define-fun %s () Bool %s)' % (l[1], 'true' if noq else l[2]))
+            else:
+                out.append(l)
         for a in self.quant_axioms:
             out.append('(assert %s)' % a)
         for a in rec_axioms:
@@ -543,8 +571,11 @@ class VC:
         for ai, a in enumerate(self.assumes[:obl.nassume]):
             if not isinstance(a, tuple) and self.relevant(ai, obl):
                 out.append('(assert %s)' % a)
+        seen = set()
         for a in qinst:
-            out.append('(assert %s)' % a)
+            if a not in seen and a != 'true':
+                seen.add(a)
+                out.append('(assert %s)' % a)
         if obl.expect == 'sat':
             out.append('(assert %s)' % and_(obl.guard, obl.goal))
         else:
